@@ -143,9 +143,12 @@ class UTPM(Ring, RawAlgorithmsMixIn):
             x_data, y_data = UTPM._broadcast_arrays(self.data.__getitem__((slice(None),slice(None)) + sl), rhs.data)
             return x_data.__setitem__(Ellipsis, y_data)
         else:
-            if isinstance(rhs, numpy.ndarray) and numpy.may_share_memory(self.data, rhs):
-                # a view of our own coefficients would be cleared before it is read
-                rhs = rhs.copy()
+            if not numpy.isscalar(rhs):
+                # (a list / tuple of views becomes a fresh array)
+                rhs = numpy.asarray(rhs)
+                if numpy.may_share_memory(self.data, rhs):
+                    # a view of our own coefficients would be cleared before it is read
+                    rhs = rhs.copy()
             self.data.__setitem__((slice(1,None),slice(None)) + sl, 0)
             return self.data.__setitem__((0,slice(None)) + sl, rhs)
 
